@@ -3,7 +3,7 @@ from props import forest_common as fc
 from props.C18 import _params
 
 ID = "C17"
-KINDS = ["always_equal", "never_equal", "falsy", "zero_len", "unhashable", "trap", "container"]
+KINDS = ["always_equal", "never_equal", "falsy", "zero_len", "unhashable", "trap", "container", "tuple"]
 LEVEL_TEXT = ("Thin proof + adversarial differential run. In Lean no function of the model takes the user's special methods as "
               "an input (nodes are compared by index/address only), so every modelled result is independent of them; the three "
               "sites that were not identity-based before the fix: commit for D6 (util.leftsibling/rightsibling truthiness and "
